@@ -8,7 +8,7 @@ from okdmr.dmrlib.protocols.hytera.rdac_datagram_protocol import RDACDatagramPro
 from okdmr.dmrlib.storage.repeater_storage import RepeaterStorage
 from okdmr.dmrlib.storage.repeater import Repeater
 
-PEERS = [("10.0.0.1", 50000), ("10.0.0.2", 50777), ("10.0.0.3", 1024)]  # (source ports: the handler's own P2P port, and two others)
+PEERS = [("10.0.0.1", 50000), ("10.0.0.2", 50777), ("10.0.0.1", 1024)]  # (source ports: the handler's own P2P port and two others; the third peer shares the host of the first - two repeaters behind one NAT)
 OUT = [("10.0.0.1", 30001), ("10.0.0.2", 30001), ("10.0.0.3", 30001)]
 STATUS = ("absent", "unregistered", "registered")
 
